@@ -137,6 +137,103 @@ def entries():
                 pre=["not isinstance(w, (str, bytes)) or len(w) <= 2"]))
     L.append(ent("alias.in.dict", "a: int, pa: bool, va: int",
                 '("dict", [("a", True, ("alias", "T", %s))], False)' % INT_A, "mkdict(('a', pa, va))"))
-    return L
+    return L + thorough_entries()
 
 
+
+
+# ------------------------------------------------------------------ thorough tier: generated compositions (depth 2 and 3)
+
+class _Leaf:
+    def __init__(self, kind):
+        self.kind = kind
+
+    def spec(self):
+        return {"int": ('("int", Nil, la, Nil)', ["la: int"], []),
+                "intmax": ('("int", Nil, Nil, lb)', ["lb: int"], []),
+                "str": ('("str", Nil, (Nil, Nil, lk), Nil, Nil, Nil)', ["lk: int"], []),
+                "alpha": ('("str", Nil, NOLEN, lal, Nil, Nil)', ["lal: str"], ["len(lal) <= 2"]),
+                "bool": ('("bool", Nil)', [], []),
+                "none": ('("none",)', [], []),
+                "float": ('("float", Nil, lmn, Nil, Nil)', ["lmn: float"], ["lmn == lmn"]),
+                "bytes": ('("bytes", Nil)', [], []),
+                "intval": ('("int", lx, Nil, Nil)', ["lx: int"], [])}[self.kind]
+
+    def value(self, s):
+        """(expr, params, pre) of a value with fresh symbolic leaves named by suffix s"""
+        if self.kind in ("int", "intmax", "intval"):
+            return "v%s" % s, ["v%s: int" % s], []
+        if self.kind in ("str", "alpha"):
+            return "v%s" % s, ["v%s: str" % s], ["len(v%s) <= 2" % s]
+        if self.kind == "bool":
+            return "v%s" % s, ["v%s: Union[None, bool, int]" % s], []
+        if self.kind == "none":
+            return "(None if v%s else 0)" % s, ["v%s: bool" % s], []
+        if self.kind == "float":
+            return "v%s" % s, ["v%s: float" % s], ["v%s == v%s" % (s, s)]
+        return "v%s" % s, ["v%s: bytes" % s], ["len(v%s) <= 2" % s]
+
+
+class _Cont:
+    def __init__(self, form, inner, tag):
+        self.form, self.inner, self.tag = form, inner, tag
+
+    def spec(self):
+        sp, params, pre = self.inner.spec()
+        f = self.form
+        if f == "typed":
+            return '("list_t", %s, NOLEN)' % sp, params, pre
+        if f == "head":
+            return '("list_e", [%s, E], NOLEN)' % sp, params, pre
+        if f == "tail":
+            return '("list_e", [E, %s], NOLEN)' % sp, params, pre
+        if f == "body":
+            return '("list_e", [E, %s, E], NOLEN)' % sp, params, pre
+        if f == "dreq":
+            return '("dict", [("k", False, %s), ("o", True, ("none",))], False)' % sp, params, pre
+        if f == "dopt":
+            return '("dict", [("k", True, %s)], "first")' % sp, params, pre
+        return '("any", [%s, ("none",)])' % sp, params, pre
+
+    def value(self, s):
+        t = self.tag + s
+        e1, p1, q1 = self.inner.value(t + "a")
+        f = self.form
+        if f in ("typed", "head", "tail", "body"):
+            e2, p2, q2 = self.inner.value(t + "b")
+            n = "n" + t
+            if f == "typed":
+                expr = "mklist(%s, %s, %s)" % (n, e1, e2)
+            elif f == "head":
+                expr = "mklist(%s, %s, x%s)" % (n, e1, t)
+            elif f == "tail":
+                expr = "mklist(%s, x%s, %s)[2 - %s:] if %s <= 2 else [x%s, %s]" % ("2", t, e1, n, n, t, e1)
+                expr = "(mklist(%s, %s) if %s < 2 else [x%s, %s])" % (n, e1, n, t, e1)
+            else:
+                expr = "(mklist(%s, %s) if %s < 2 else [x%s, %s, %s])" % (n, e1, n, t, e1, e2)
+            extra = ["%s: int" % n, "x%s: int" % t]
+            params = p1 + (p2 if f in ("typed", "body") else []) + extra
+            pre = q1 + (q2 if f in ("typed", "body") else []) + ["0 <= %s <= 2" % n]
+            return expr, params, pre
+        if f in ("dreq", "dopt"):
+            return "mkdict(('k', p%s, %s), ('z', z%s, 0))" % (t, e1, t), p1 + ["p%s: bool" % t, "z%s: bool" % t], q1
+        return "(%s if p%s else None)" % (e1, t), p1 + ["p%s: bool" % t], q1
+
+
+def thorough_entries():
+    out = []
+    leaves = ["int", "intmax", "str", "alpha", "bool", "none", "float", "bytes", "intval"]
+    forms = ["typed", "head", "tail", "body", "dreq", "dopt", "any"]
+    for f in forms:
+        for lf in leaves:
+            node = _Cont(f, _Leaf(lf), "c")
+            sp, sparams, spre = node.spec()
+            ve, vparams, vpre = node.value("")
+            out.append(ent("gen2.%s.%s" % (f, lf), ", ".join(sparams + vparams), sp, ve, pre=spre + vpre, timeout=120, tier="thorough"))
+    for f1 in forms:
+        for f2 in forms:
+            node = _Cont(f1, _Cont(f2, _Leaf("int"), "d"), "c")
+            sp, sparams, spre = node.spec()
+            ve, vparams, vpre = node.value("")
+            out.append(ent("gen3.%s.%s.int" % (f1, f2), ", ".join(sparams + vparams), sp, ve, pre=spre + vpre, timeout=200, tier="thorough"))
+    return out
